@@ -79,6 +79,9 @@ func main() {
 		dumpFn(c, *dump)
 		return
 	}
+	if strings.Contains(*prop, ",") && *noEvidence {
+		os.Exit(multiChild(strings.Split(*prop, ","), *repo, *tier))
+	}
 	f, ok := registry[*prop]
 	if !ok {
 		fmt.Printf("unknown property %q\n", *prop)
@@ -127,6 +130,44 @@ func main() {
 		return rep.Finish(*verif, *only)
 	}()
 	os.Exit(code)
+}
+
+// multiChild runs several properties' rules over one load of a (variant) tree and prints
+// the violated/undecided obligations of each; used by the sweep tools only.
+func multiChild(props []string, repo, tier string) int {
+	c, err := Load(repo, tier, false)
+	if err != nil {
+		fmt.Printf("CHILD-LOAD-ERROR\t%v\n", err)
+		return 3
+	}
+	rc := 0
+	for _, id := range props {
+		f, ok := registry[id]
+		if !ok {
+			continue
+		}
+		func() {
+			rep := NewReport(id, tier)
+			defer func() {
+				if e := recover(); e != nil {
+					fmt.Printf("CHILD-REPORT\t%s.R0\tundecided\tchecker panicked: %v\t-\n", id, e)
+					rc = 1
+				}
+			}()
+			theCtx = c
+			mentioned = map[string]bool{}
+			inlineOn = false
+			computeHelpers(c)
+			f(&P{c: c, r: NewReport(id, tier)})
+			inlineOn = true
+			computeHelpers(c)
+			f(&P{c: c, r: rep})
+			if childFinish(rep) != 0 {
+				rc = 1
+			}
+		}()
+	}
+	return rc
 }
 
 // childFinish prints violated/undecided obligations one per line (used by the mutant self-test).
